@@ -12,13 +12,25 @@ fn gen(src: &mut Src, tier: Tier) -> Case {
 }
 
 /// themes: the sharp regions listed in DESIGN 2.5
-fn gen_themed(src: &mut Src, tier: Tier) -> Case {
+pub fn gen_themed(src: &mut Src, tier: Tier) -> Case {
     let fl = Fl::gen(src);
     let alpha = gen_alphabet(src);
     let mut cfg = GenCfg::full(fl, alpha.clone());
     cfg.max_depth = 3;
     let a = |src: &mut Src, cfg: &GenCfg| Node::Lit(gen_char(src, cfg));
-    let node = match src.below(11) {
+    let node = match src.below(12) {
+        11 => {
+            // a long literal (its UTF-8 form crosses one or more 16-byte chunk seams), shifted by a short prefix
+            let mut parts = vec![];
+            for _ in 0..src.below(3) {
+                parts.push(a(src, &cfg));
+            }
+            parts.push(gen_literal_run(src, &cfg));
+            if src.chance(1, 2) {
+                parts.push(gen_node(src, &cfg, 3));
+            }
+            Node::Cat(parts)
+        }
         10 => {
             // counted single-character loops with counts the optimizer does not unroll (> 5), greedy and lazy
             let c = gen_char(src, &cfg);
